@@ -12,17 +12,19 @@
    The family is enumerated exhaustively by growing paths one segment per step.  A case is printed
    when its hash falls into residue class Residue mod Modulus (Modulus = 1: everything), so
    different seeds run different slices of one fixed family; NeedLong keeps only cases with a
-   254/255-member segment (the rest is covered exhaustively by the small families). *)
+   254/255-member segment (the rest is covered exhaustively by the small families).  Types2/Types4
+   restrict the segment kinds (the "merge" family: AS_SEQUENCE only, member counts around 255, so
+   that every way of gluing kept AS_PATH members to the first AS4_PATH segment at the 255 limit
+   is run whatever the seed). *)
 EXTENDS Integers, Sequences, FiniteSets, TLC, Json
 
-CONSTANTS Mode, MaxSegs2, MaxSegs4, Lens2, Lens4, Pats2, Pats4, NeedLong, Modulus, Residue
+CONSTANTS Mode, MaxSegs2, MaxSegs4, Types2, Types4, Lens2, Lens4, Pats2, Pats4, NeedLong, Modulus, Residue
 
 VARIABLES c
 vars == <<c>>
 
-Types == {"SEQ", "SET", "CSEQ", "CSET"}
 PatsFor(n, pats) == IF n = 1 THEN {IF w \in {"first", "last"} THEN "all" ELSE w : w \in pats} ELSE pats
-Descs(lens, pats) == UNION {{[t |-> t, n |-> n, w |-> w] : t \in Types, w \in PatsFor(n, pats)} : n \in lens}
+Descs(types, lens, pats) == UNION {{[t |-> t, n |-> n, w |-> w] : t \in types, w \in PatsFor(n, pats)} : n \in lens}
 
 IsConfedD(d) == d.t \in {"CSEQ", "CSET"}
 ValidD(p)    == \A i, j \in 1..Len(p) : (i < j /\ IsConfedD(p[j])) => IsConfedD(p[i])
@@ -38,16 +40,16 @@ Init == IF Mode = "rt" THEN c = [kind |-> "rt", p |-> <<>>]
         ELSE c = [kind |-> "pair", a2 |-> <<>>, has4 |-> FALSE, a4 |-> <<>>]
 
 GrowRt == /\ c.kind = "rt" /\ Len(c.p) < MaxSegs2
-          /\ \E d \in Descs(Lens2, Pats2) :
+          /\ \E d \in Descs(Types2, Lens2, Pats2) :
                /\ ValidD(Append(c.p, d))
                /\ c' = [c EXCEPT !.p = Append(c.p, d)]
 GrowA2 == /\ c.kind = "pair" /\ ~c.has4 /\ Len(c.a2) < MaxSegs2
-          /\ \E d \in Descs(Lens2, Pats2) :
+          /\ \E d \in Descs(Types2, Lens2, Pats2) :
                /\ ValidD(Append(c.a2, d))
                /\ c' = [c EXCEPT !.a2 = Append(c.a2, d)]
 StartA4 == c.kind = "pair" /\ ~c.has4 /\ c' = [c EXCEPT !.has4 = TRUE]
 GrowA4 == /\ c.kind = "pair" /\ c.has4 /\ Len(c.a4) < MaxSegs4
-          /\ \E d \in Descs(Lens4, Pats4) : c' = [c EXCEPT !.a4 = Append(c.a4, d)]
+          /\ \E d \in Descs(Types4, Lens4, Pats4) : c' = [c EXCEPT !.a4 = Append(c.a4, d)]
 
 Next == GrowRt \/ GrowA2 \/ StartA4 \/ GrowA4
 Spec == Init /\ [][Next]_vars
